@@ -123,6 +123,9 @@ func VerifHarness_C20_main() {
 		"r": "repair", "repair": "repair", "REPAIR": "repair"}[cmd]
 	isPar := file == "s.par" || file == "s.par2" || file == "dir/s.par2"
 	usage := flagKind == 2 || flagKind == 3 || cmd == "" || lower == "" || file == "" || (lower == "create" && nData == 0)
+	if !usage && isPar {
+		rt.Assert(c20Outcome >= 0, "a well-formed command line reaches the requested library operation")
+	}
 	switch {
 	case usage:
 		rt.Assert(code == 3, "usage errors exit 3")
